@@ -277,6 +277,9 @@ def check(prop, cfg, tier, seed, repo, work, t0, replay_in):
     disagree_set = set(disagree)
     fail_set = set(fail_unlisted)
     os.makedirs(os.path.join(VERIF, "replays"), exist_ok=True)
+    for old in glob.glob(os.path.join(VERIF, "replays", "%s-%s-%s-*.json" % (prop, tier, seed))):
+        if replay_in is None:
+            os.remove(old)
 
     def write_replay(tag, body):
         path = os.path.join(VERIF, "replays", "%s-%s-%s-%s.json" % (prop, tier, seed, tag))
